@@ -1224,9 +1224,80 @@ def nontrivial(c):
     return co is None or len(set(co)) > 1
 
 
+
+# ------------------------------------------------------------------------------------------------
+# binary64 execution next to the end points: the REAL float kernels and classes against the Coq model evaluated on the
+# exact rational reading of the same float inputs.  In exact arithmetic a point one ulp inside the domain never reaches
+# the end-point branch, in floating point (x - xmin)/dx may round to ncells: both branches must still return the value
+# of the spline at that point up to rounding (the spline is continuous).  Spaces whose cell size is not a dyadic
+# rational are essential here (e.g. [-1, 1] with 23 cells).
+def end_point_float_stage(chk):
+    import numpy as np
+    from pygyro.splines.splines import make_knots, BSplines
+    rnu, rcu = real_modules()
+    rng = random.Random(chk.seed + 77)
+    quick = chk.tier == 'quick'
+    doms = [(-1.0, 1.0, 23), (0.1, 14.5, 67), (0.0, 1.0, 7), (-7.0, 7.0, 30), (0.0, 2 * math.pi, 8), (0.0, 1506.0, 31)]
+    for _ in range(4 if quick else 40):
+        lo = rng.uniform(-10, 10)
+        doms.append((lo, lo + rng.uniform(0.3, 30), rng.randint(4, 70)))
+    lines = []
+    meta = []
+    for (lo, hi, nc) in doms:
+        for periodic in (False, True):
+            br = np.linspace(lo, hi, nc + 1)
+            kn_true = make_knots(br, 3, periodic)
+            bs = BSplines(kn_true, 3, periodic, True)
+            k4 = np.array(bs.knots, dtype=float)
+            nb = len(kn_true) - 4
+            co = np.array([rng.uniform(-2, 2) for _ in range(nb)])
+            if periodic:
+                co[nb - 3:] = co[:3]
+            xs = [hi, lo]
+            x = hi
+            for k in range(16):
+                x = float(np.nextafter(x, lo))
+                xs.append(x)
+            x = lo
+            for k in range(4):
+                x = float(np.nextafter(x, hi))
+                xs.append(x)
+            xs += [float(b) for b in br[1:-1][:3]] + [float(np.nextafter(br[nc // 2], lo))]
+            sabs = float(np.abs(co).sum())
+            dx = float(k4[2])
+            for der in (0, 1):
+                for x in xs:
+                    fv = float(rcu['cu_eval_spline_1d_scalar'](x, k4, 3, co, der))
+                    fg = float(rnu['nu_eval_spline_1d_scalar'](x, np.asarray(kn_true, dtype=float), 3, co, der))
+                    lines.append('sp.cu1s %d %s | %s | %s' % (der, qstr(qlift.frac_of_float(x)), ' '.join(qstr(qlift.frac_of_float(v)) for v in k4),
+                                                             ' '.join(qstr(qlift.frac_of_float(v)) for v in co)))
+                    tol = 64.0 * (nc + 8) * U * 2 * sabs * (1.0 if der == 0 else 4.0 / dx)
+                    meta.append(('cu', (lo, hi, nc, periodic), x, der, fv, tol))
+                    lines.append('sp.nu1s 3 %d %s | %s | %s' % (der, qstr(qlift.frac_of_float(x)), ' '.join(qstr(qlift.frac_of_float(float(v))) for v in kn_true),
+                                                                 ' '.join(qstr(qlift.frac_of_float(v)) for v in co)))
+                    meta.append(('nu', (lo, hi, nc, periodic), x, der, fg, tol))
+    ans = model_par(lines)
+    worst = 0.0
+    for (fam, sp, x, der, fv, tol), a in zip(meta, ans):
+        inside = 'right-end' if x == sp[1] else 'left-end' if x == sp[0] else 'ulps-inside-right' if x > sp[1] - (sp[1] - sp[0]) / (2 * sp[2]) else 'other'
+        chk.count((fam, sp, x, der), stratum='float-end:%s:%s:der%d' % (fam, inside, der),
+                  sample={'path': fam, 'domain': [sp[0], sp[1]], 'ncells': sp[2], 'periodic': sp[3], 'x': repr(x), 'der': der, 'float': fv})
+        if not a.startswith('ok '):
+            raise core.BrokenCheck('model answers %r on the closed domain (%s x=%r)' % (a, fam, x))
+        ev = qparse(a[3:])
+        d = abs(float(F(fv) - ev))
+        worst = max(worst, d / tol)
+        if not (d <= tol):
+            chk.violation('%s:float-near-end-point' % SITE[fam],
+                          '%s path, domain [%r, %r] with %d cells (%s), der=%d: at x=%r (%s) the float kernel returns %r, the spline is %.17g there (|diff| %.3e > %.1e)'
+                          % (fam, sp[0], sp[1], sp[2], 'periodic' if sp[3] else 'clamped', der, x, inside, fv, float(ev), d, tol),
+                          {'kind': 'impl', 'stage': 'end-point-float', 'path': fam, 'domain': list(sp), 'x': repr(x), 'der': der, 'float': fv, 'exact': qstr(ev)})
+    return len(meta), worst
+
 def run():
     chk = core.Check('C07', 'proof')
     proof = core.proof_stage('C07')
+    n_endf, endf_worst = end_point_float_stage(chk)
     cases, spaces = gen_exact_cases(chk)
     n_knots_validated = validate_make_knots(chk, spaces)
 
